@@ -47,6 +47,9 @@ func (e *Exec) enterLoop(li *loopInfo, phiVals map[ssa.Value]Val, st *State) {
 	if spec != nil {
 		env := e.loopEnv(li, phiVals, st, li.iterEntry, true)
 		for i, inv := range spec.Invariants {
+			if !clauseOn(inv) || !clauseEmit(inv) {
+				continue
+			}
 			t := e.evalContractBool(inv.Expr, env, "invariant")
 			e.oblige("inv-entry", "loop"+li.ord+":"+labelOr(inv.Label, i), t, e.propsOf(inv), inv.Src)
 		}
@@ -119,6 +122,9 @@ func (e *Exec) enterLoop(li *loopInfo, phiVals map[ssa.Value]Val, st *State) {
 	if spec != nil {
 		env := e.loopEnv(li, li.hdrVals, hst, li.iterHdr, false)
 		for _, inv := range spec.Invariants {
+			if !clauseOn(inv) {
+				continue
+			}
 			t := e.evalContractBool(inv.Expr, env, "invariant")
 			e.assume(Implies(e.guard(), t))
 		}
@@ -203,7 +209,15 @@ func (e *Exec) checkInvariants(li *loopInfo, from *ssa.BasicBlock, cond *Term) {
 	// the invariants are proved as a conjunction: clause k may use clauses 1..k-1 at the same program point
 	var earlier []*Term
 	for i, inv := range spec.Invariants {
+		if !clauseOn(inv) {
+			continue
+		}
 		t := e.evalContractBool(inv.Expr, env, "invariant")
+		if !clauseEmit(inv) {
+			// group pass: an invariant of the main pass is proved there; here it may be used at the same program point
+			earlier = append(earlier, Implies(e.guard(), t))
+			continue
+		}
 		before := len(e.root().obls)
 		e.oblige("inv-preserved", "loop"+li.ord+":"+labelOr(inv.Label, i), t, e.propsOf(inv), inv.Src)
 		r := e.root()
